@@ -276,19 +276,22 @@ def raw_roundtrip(enc, chunk, size):
 @register
 class RawRoundTrip(Lemma):
     """decode(encode(a), (X,Y,Z)) == a in shape (C,Z,Y,X), dtype and every value; both methods are
-    interpreted from the real source (inlined), tobytes/frombuffer/reshape are assumed models."""
+    interpreted from the real source (inlined), tobytes/frombuffer/reshape are assumed models.
+    The chunk handed to encode may be in either byte order (e.g. '>u2' data from a memmap)."""
     name = "lemma:raw-decode(encode(a))==a"
     props = ("C03",)
-    configs = RAW_DTYPES
+    configs = RAW_DTYPES + (">u2", ">u4", ">u8")
 
     def run(self, c, cfg):
+        in_dt = np.dtype(cfg)
+        cfg = in_dt.name
         enc = mk_raw(c, cfg)
         nch = enc.attrs["num_channels"]
         Zs, Ys, Xs = (c.int(n, inp=True) for n in ("Z", "Y", "X"))
         for s in (Zs, Ys, Xs):
             c.assume(s >= 1)
         kind = "real" if cfg == "float32" else "int"
-        a = SArr.fresh(c, "chunk", cfg, (nch, Zs, Ys, Xs), kind=kind)
+        a = SArr.fresh(c, "chunk", in_dt, (nch, Zs, Ys, Xs), kind=kind)
         from pyvc.core import RaiseSig
         try:
             res = c.interp.call(raw_roundtrip, (enc, a, (Xs, Ys, Zs)))
@@ -312,6 +315,7 @@ class RawRoundTrip(Lemma):
         shape = (min(g("num_channels"), 3), g("Z"), g("Y"), g("X"))
         rng = np.random.default_rng(0)
         a = (rng.random(shape) * 1000).astype(cfg)
+        cfg = np.dtype(cfg).name
         enc = RawChunkEncoder(cfg, shape[0])
         try:
             b = enc.decode(enc.encode(a), (shape[3], shape[2], shape[1]))
@@ -521,3 +525,40 @@ class LeBytesRoundTrip(Lemma):
             hi = SInt(e.t % (256 ** (k + 1)))
             c.prove(f"step{k}: e mod 256^{k+1} == e mod 256^{k} + 256^{k}*byte{k}", hi == lo + (256 ** k) * bs[k])
         c.prove("compose(bytes(e))==e", le_compose(lambda i: bs[i], 0, n) == e)
+
+
+@harness
+def two_encoders(info1, info2, sc):
+    from neuroglancer_scripts.chunk_encoding import get_encoder
+    e1 = get_encoder(info1, sc)
+    e2 = get_encoder(info2, sc)
+    return e1, e2
+
+
+@register
+class GetEncoderNoHiddenState(Lemma):
+    """history: an encoder reflects the info it was built from, whatever was built before it
+    (datasets opened in sequence in one process)."""
+    name = "lemma:get_encoder-has-no-hidden-state"
+    props = ("C03",)
+    configs = ("raw", "compressed_segmentation")
+
+    def run(self, c, cfg):
+        n1, n2 = c.int("channels1", inp=True), c.int("channels2", inp=True)
+        c.assume(And(n1 >= 1, n2 >= 1))
+        dt = "uint32"
+        sc = {"encoding": cfg, "compressed_segmentation_block_size": [8, 8, 8]}
+        e1, e2 = c.interp.call(two_encoders, ({"data_type": dt, "num_channels": n1}, {"data_type": dt, "num_channels": n2}, sc))
+        for nm, e, n in (("first", e1, n1), ("second", e2, n2)):
+            c.prove(f"{nm}-encoder-has-its-own-channel-count", isinstance(e, SObj) and (e.attrs["num_channels"] == n))
+
+    def replay(self, model, cfg, ob_name):
+        from neuroglancer_scripts.chunk_encoding import get_encoder
+        n1, n2 = max(1, model.get("channels1", 1)), max(1, model.get("channels2", 2))
+        if n1 == n2:
+            n2 = n1 + 2
+        sc = {"encoding": cfg, "compressed_segmentation_block_size": [8, 8, 8]}
+        e1 = get_encoder({"data_type": "uint32", "num_channels": n1}, sc)
+        e2 = get_encoder({"data_type": "uint32", "num_channels": n2}, sc)
+        bad = e1.num_channels != n1 or e2.num_channels != n2
+        return {"reproduced": bad, "detail": f"get_encoder for {n1} then {n2} channels -> encoders with {e1.num_channels}, {e2.num_channels} channels"}
